@@ -38,14 +38,18 @@ CHECKS = {
             'run-length encoding, merging, alignment, refinement of fragments, pruning): for every character table '
             'consistent with re\'s \\w / \\d / \\s, every option record and every list of examples, every kept example '
             'is matched in full (Matches, an independent denotation of pattern ASTs) by one of the returned patterns '
-            '(extract_sound); the fragment matcher is sound and complete; the coarse classes are sound. Constants, category '
+            '(extract_sound); the same holds UNDER SAMPLING for every Size setting and whatever random.sample returns '
+            '(extract_sampled_sound over a model of the first sample and the extract / check / extend loop), the loop always '
+            'terminates (extract_sampled_terminates) and coincides with the batch result below the threshold; the fragment '
+            'matcher is sound and complete; the coarse classes are sound. Constants, category '
             'tables and class order are regenerated from the source on every run and tied by tie_* theorems; the model '
-            'reproduces rexpy.extract\'s output text exactly on every generated case that does not sample (all dialects, '
-            'tagging, extra letters, variable-length fragments). The sampling loop, the rendering and the Python reading of '
+            'reproduces rexpy.extract\'s output text exactly on every generated case (all dialects, tagging, extra letters, '
+            'variable-length fragments; for cases that sample the model replays the recorded random.sample results of the '
+            'run it is compared with). The rendering and the Python reading of '
             'the text are decided by the oracle (re.fullmatch of every example against every returned expression) over '
             'exotic alphabets, all option subsets, tiny Size settings and seeds.',
             'Trusted: Lean kernel; CPython re (character classes enter as a table, matching of rendered text is oracle-only); '
-            'sampling loop not modelled. Two known findings (non-ASCII decimal digits under portable / grep).',
+            'random.sample as far as PickOK. Two known findings (non-ASCII decimal digits under portable / grep).',
             'DESIGN.md 4 C03'),
     'C11': ('Lean 4 theorems over a model of the generator\'s decision logic + model/implementation correspondence (partial: running commands, files and Python text are runtime, decided by the oracle)',
             'Kernel-checked theorems: the generated script contains the two fixed tests, the stream tests asked for and exactly '
